@@ -75,6 +75,14 @@ def layout_cases():
         cases.append({"id": "direct-%d" % k, "mode": "direct", "plugins": [], "thrift": thrift, "root": "idl/a/b/x.thrift",
                       "direct": {p: "package p\n" for p in paths},
                       "expect": {"fail": conflict, "paths": [] if conflict else sorted("out/" + l for l in locs + core)}})
+    # a failing run on top of the output of an earlier successful run: nothing of the earlier output is touched
+    bad_plugin = {"name": "p1", "hs": "ok", "gen": "exception", "bye": "ok", "files": {}, "truncAt": 0, "onebyte": False}
+    dot_plugin = {"name": "p1", "hs": "ok", "gen": "dotdot", "bye": "ok", "files": {"../x.go": "package x"}, "truncAt": 0, "onebyte": False}
+    for k, (pre, args, plugins) in enumerate([([[]], ["--output-file", "types.go"], [bad_plugin]), ([[]], [], [bad_plugin]), ([[]], ["--output-file", "types.go"], [dot_plugin]),
+                                              ([["--output-file", "types.go"]], [], [bad_plugin]), ([[], ["--no-recurse"]], ["--output-file", "all.go"], [bad_plugin]),
+                                              ([[]], ["--no-recurse", "--output-file", "x.go"], [bad_plugin])]):
+        cases.append({"id": "rerun-fails-%d" % k, "mode": "cli", "plugins": plugins, "thrift": thrift, "root": "idl/a/b/x.thrift", "pre": pre,
+                      "args": ["--thrift-root", "idl"] + args})
     cases.append({"id": "compile-error", "mode": "cli", "plugins": [], "thrift": {"idl/x.thrift": "struct X { 1: optional Nope n }\n"},
                   "root": "idl/x.thrift", "expect": {"fail": True, "paths": []}})
     return cases
